@@ -13,7 +13,9 @@ from . import core
 sys.path.insert(0, core.REPO)
 
 LABELS = {"acq": 1, "rel": 2, "zacq": 3, "zrel": 4, "rd_closed": 5, "rd_closing": 6, "wr_closing": 7, "wr_closed": 8,
-          "send1": 9, "send2": 10, "zcompress": 11, "zflush": 12, "wr_time": 13, "sockclose": 14, "line": 15, "tryacq": 16, "ztryacq": 17}
+          "send1": 9, "send2": 10, "zcompress": 11, "zflush": 12, "wr_time": 13, "sockclose": 14, "line": 15, "tryacq": 16, "ztryacq": 17,
+          # locks that the code under test creates while the threads are running (the model knows none)
+          "xacq": 18, "xrel": 19, "xtryacq": 20}
 
 # source files whose lines are scheduling points in line-level mode
 LINE_FILES = ("frame.py", "compression.py", "websocket.py", "session.py", "mask.py", "message.py", "stream.py")
@@ -22,6 +24,10 @@ REAL_LOCK_TYPES = (type(threading.Lock()), type(threading.RLock()))
 
 class Abort(BaseException):
     pass
+
+
+class Stuck(Exception):
+    """the thread that has the baton did not come back: it waits for something outside the scheduler's control"""
 
 
 class Sched(object):
@@ -64,15 +70,19 @@ class Sched(object):
             self.cv.notify_all()
 
     # ---- scheduler side
-    def wait_parked(self, n):
+    def wait_parked(self, n, patience=60.0):
+        import time as _time
+        t0 = _time.time()
         with self.cv:
             while self.turn is not None or len(self.pending) + len(self.finished) < n:
-                self.cv.wait(5)
+                self.cv.wait(1)
+                if _time.time() - t0 > patience:
+                    raise Stuck()
 
     def enabled(self):
         out = []
         for tid, (label, lock) in sorted(self.pending.items()):
-            if label in ("acq", "zacq") and lock.owner is not None:
+            if label in ("acq", "zacq", "xacq") and lock.owner is not None:
                 continue
             out.append(tid)
         return out
@@ -97,18 +107,18 @@ class CoopLock(object):
     def acquire(self, blocking=True, timeout=-1):
         if not blocking:
             # a probe: it never waits, so it is a scheduling point that is always enabled, and it fails while the lock is held
-            self.sched.point("tryacq" if self.name == "lock" else "ztryacq")
+            self.sched.point({"lock": "tryacq", "zlock": "ztryacq"}.get(self.name, "xtryacq"))
             if self.owner is not None:
                 return False
             self.owner = self.sched.me() if self.sched.me() is not None else -1
             return True
-        self.sched.point("acq" if self.name == "lock" else "zacq", self)
+        self.sched.point({"lock": "acq", "zlock": "zacq"}.get(self.name, "xacq"), self)
         assert self.owner is None, "scheduler released a thread onto a held lock"
         self.owner = self.sched.me() if self.sched.me() is not None else -1
         return True
 
     def release(self):
-        self.sched.point("rel" if self.name == "lock" else "zrel")
+        self.sched.point({"lock": "rel", "zlock": "zrel"}.get(self.name, "xrel"))
         self.owner = None
 
     def locked(self):
@@ -217,6 +227,7 @@ def run_schedule(programs, schedule, compression=None, default="stay", lines=Fal
         return bytes([0x10 + (tid or 0)]) * 4
     F.make_masking_key = mk
     results = [[] for _ in programs]
+    patched_threading = []
     try:
         ws = W.WebSocket("ws://example.test/")
         State = make_state_class(W, sched)
@@ -309,6 +320,21 @@ def run_schedule(programs, schedule, compression=None, default="stay", lines=Fal
             st.stream.frame_parser.reset()
         sess._next_ping = 0.0
         sess._ready = True
+        # locks the code creates from now on (lazily, per call, ...) are cooperative too: a real lock taken by a parked thread
+        # would block the thread that holds the baton for ever
+        class _Threading(object):
+            def __getattr__(self_, k):
+                return getattr(threading, k)
+
+            def Lock(self_):
+                return CoopLock(sched, "xlock")
+
+            def RLock(self_):
+                return CoopLock(sched, "xlock")
+        for mod in (S, W, C):
+            if getattr(mod, "threading", None) is threading:
+                mod.threading = _Threading()
+                patched_threading.append(mod)
         threads = [threading.Thread(target=worker, args=(i, p)) for i, p in enumerate(programs)]
         for t in threads:
             t.daemon = True
@@ -318,8 +344,14 @@ def run_schedule(programs, schedule, compression=None, default="stay", lines=Fal
         pos = 0
         cur = None
         steps = 0
+        stuck = False
         while True:
-            sched.wait_parked(n)
+            try:
+                sched.wait_parked(n)
+            except Stuck:
+                stuck = True
+                sched.abort()
+                break
             en = sched.enabled()
             if not en:
                 break
@@ -342,7 +374,7 @@ def run_schedule(programs, schedule, compression=None, default="stay", lines=Fal
             if steps > (40000 if lines else 2000):
                 sched.abort()
                 break
-        deadlock = len(sched.finished) < n
+        deadlock = len(sched.finished) < n or stuck
         if deadlock:
             sched.abort()
         for t in threads:
@@ -351,6 +383,8 @@ def run_schedule(programs, schedule, compression=None, default="stay", lines=Fal
                     zorder=list(zp.order), flags=(W.WebSocket.State.__getattribute__(st, "closing"), W.WebSocket.State.__getattribute__(st, "closed")))
     finally:
         C.zlib, F.make_masking_key, S.time = old
+        for mod in patched_threading:
+            mod.threading = threading
 
 
 def explore(programs, compression=None, bound=2, limit=20000):
